@@ -311,28 +311,73 @@ def run(prog, rep):
     # ---- R4 ----
     for shell in (nxg.SHARED_SHELL, nxg.DISJ_SHELL):
         st = nxg.storage_class(prog, shell)
-        ag = st.methods.get('add_graph')
+        ag = nxg.method(prog, st, st.methods.get('add_graph'))
         fq = f'{st.name}.add_graph'
         smod = st.module
-        loops = [n for n in walk_no_nested(ag) if isinstance(n, ast.For)]
+        relabelled = nxg._relabelled_names(ag)
+        gparam = [p_ for p_ in func_params(ag) if p_ not in ('self', 'graph')]
+        gparam = gparam[0] if gparam else 'graph_id'
+
+        def folds_to(e, value):
+            try:
+                return prog.const_eval(e, smod, st) == value
+            except Unfoldable:
+                return False
+
+        def iter_kind(it):
+            """('keys'|'items', graph name) for an iteration over the nodes of a relabelled graph, else None"""
+            if isinstance(it, ast.Call) and isinstance(it.func, ast.Name) and it.func.id in ('list', 'tuple', 'sorted') and len(it.args) == 1:
+                it = it.args[0]
+            if isinstance(it, ast.Name) and it.id in relabelled:
+                return 'keys', it.id
+            if isinstance(it, ast.Attribute) and it.attr == 'nodes' and isinstance(it.value, ast.Name) and it.value.id in relabelled:
+                return 'keys', it.value.id
+            if isinstance(it, ast.Call) and isinstance(it.func, ast.Attribute):
+                f = it.func
+                if f.attr == 'nodes' and isinstance(f.value, ast.Name) and f.value.id in relabelled:
+                    data = kwarg(it, 'data') or (it.args[0] if it.args else None)
+                    if data is None:
+                        return 'keys', f.value.id
+                    if isinstance(data, ast.Constant) and data.value is True:
+                        return 'items', f.value.id
+                if f.attr in ('items', 'data') and isinstance(f.value, ast.Attribute) and f.value.attr == 'nodes' and \
+                        isinstance(f.value.value, ast.Name) and f.value.value.id in relabelled:
+                    return 'items', f.value.value.id
+            return None
         stamp = None
-        for l in loops:
+        for l in walk_no_nested(ag):
+            if not isinstance(l, ast.For):
+                continue
             for n in ast.walk(l):
-                if isinstance(n, ast.Assign) and isinstance(n.targets[0], ast.Subscript) and 'GRAPH_ID' in ast.unparse(n.targets[0].slice):
+                if isinstance(n, ast.Assign) and isinstance(n.targets[0], ast.Subscript) and folds_to(n.targets[0].slice, 'GraphID'):
                     stamp = (l, n)
         rep.instance('R4', f'{fq}: GraphID stamp {norm(stamp[1]) if stamp else None} in loop over {norm(stamp[0].iter) if stamp else None}')
         if stamp is None:
             rep.violation('R4', loc(smod, ag), fq, 'GraphID not stamped', 'imported nodes are not tagged with the graph id they are stored under')
         else:
             l, n = stamp
-            it = ast.unparse(l.iter)
-            if 'temp_graph.nodes' not in it or ast.unparse(n.value) != 'graph_id':
+            ik = iter_kind(l.iter)
+            if ik is None or not (isinstance(n.value, ast.Name) and n.value.id == gparam):
                 rep.violation('R4', loc(smod, n), fq, norm(n), 'every node of the relabelled graph must be stamped with the given graph id')
-            idx = ast.unparse(n.targets[0].value)
-            if not idx.startswith('temp_graph.nodes['):
-                rep.violation('R4', loc(smod, n), fq, norm(n), 'the stamp must be written on the node being iterated')
-            chk = [x for x in l.body if isinstance(x, ast.If) and 'NODE_ID' in ast.unparse(x.test) and any(isinstance(y, ast.Raise) for y in x.body)]
-            if not chk or chk[0].lineno > n.lineno:
+            else:
+                kind, gname = ik
+                d = n.targets[0].value
+                if kind == 'keys':
+                    on_iterated = isinstance(l.target, ast.Name) and isinstance(d, ast.Subscript) and isinstance(d.slice, ast.Name) and d.slice.id == l.target.id \
+                        and isinstance(d.value, ast.Attribute) and d.value.attr == 'nodes' and isinstance(d.value.value, ast.Name) and d.value.value.id == gname
+                else:
+                    on_iterated = isinstance(l.target, ast.Tuple) and len(l.target.elts) == 2 and isinstance(l.target.elts[1], ast.Name) and \
+                        isinstance(d, ast.Name) and d.id == l.target.elts[1].id
+                if not on_iterated:
+                    rep.violation('R4', loc(smod, n), fq, norm(n), 'the stamp must be written on the node being iterated')
+            def mentions_node_id(e):
+                return any(isinstance(x, ast.Attribute) and folds_to(x, 'NodeID') for x in ast.walk(e))
+            body_idx = {id(x): i for i, x in enumerate(l.body)}
+            top = n
+            while getattr(top, '_parent', None) is not l:
+                top = top._parent
+            chk = [x for x in l.body if isinstance(x, ast.If) and mentions_node_id(x.test) and any(isinstance(y, ast.Raise) for y in x.body)]
+            if not chk or body_idx[id(chk[0])] > body_idx.get(id(top), -1):
                 rep.violation('R4', loc(smod, l), fq, 'NodeID check missing or after the stamp', 'nodes without a NodeID must be rejected')
             for x in ast.walk(l):
                 if isinstance(x, (ast.Break, ast.Continue)):
@@ -346,7 +391,7 @@ def run(prog, rep):
                               f'the lookup for an already stored graph with this id searches {tgt} instead of the store: a '
                               f're-import under an occupied id does not replace the old graph, node ids and edges are duplicated')
     ste = nxg.storage_class(prog, nxg.SHARED_SHELL)
-    eg = ste.methods.get('extract_graph')
+    eg = nxg.method(prog, ste, ste.methods.get('extract_graph'))
     etxt = ast.unparse(eg)
     rep.instance('R4', 'shared extract_graph: edges via to_dict_of_dicts/from_dict_of_dicts, node data merged for every selected node')
     scs0 = nxg.search_calls(eg)
